@@ -51,6 +51,28 @@ def run(c, replay):
         san = "variable length array bound evaluates to non-positive" in res1.err
         c.violation("hang:rank-without-lps" if not san else "hang:rank-without-lps:zero-length-vla",
                     dict(kind="property", what="1 LP on 2 ranks: RootsimRun does not return on any rank", program=progen.render(p1), stderr=res1.err[-600:]), True)
+    # ---- probe: models that never run out of events (every LP keeps one self-scheduled event alive after its predicate holds) with more
+    # requested threads than LPs: the run can only end through the termination detection, and every spawned worker's vote must count.
+    # The LPs never talk to each other, so there is no rollback and none of the known rollback-related findings can interfere.
+    nprobe = 0
+    for (lps, th) in ([(2, 4), (3, 8)] if c.tier == "quick" else [(1, 2), (2, 4), (3, 8), (2, 16), (5, 6), (7, 16)]):
+        pt = dict(lps=lps, ncls=1, target=30, seed=c.seed + lps, grid=0, inits=[(l, 1, 0, 0) for l in range(lps)], rows=[(0, 0, [], [], [(0, 0, 1, 0, 0)])], targets=[], plmode=0)
+        ptf = os.path.join(ctx["sd"], "tick%d_%d.txt" % (lps, th))
+        open(ptf, "w").write(progen.render(pt))
+        for gp in (200, 0):
+            rest = S.run_sim(ctx["exe"], ptf, threads=th, ckpt=2, gvt=gp, watchdog=15, timeout=45, keep_ticking=True)
+            if rest.sanitizer:
+                C.sanitizer_violation(c, rest, progen.render(pt), dict(threads=th, gvt_period_us=gp, keep_ticking=True))
+                continue
+            nprobe += 1
+            if not rest.returned:
+                hs = S.classify_hang(rest.hang) if rest.hang else "hang:no-watchdog-output"
+                # the shutdown race F12 can hit any run: it keeps its own signature (known finding); anything else is specific to this probe
+                c.violation(hs if hs.startswith("hang:drain-skips-opening-round") else "hang:never-ending-model:" + hs[5:],
+                            dict(kind="property", what="%d independent LPs on %d requested threads, every LP keeps ticking after its predicate holds: RootsimRun did not return "
+                                 "although every predicate holds on a committed state" % (lps, th), stages=rest.hang, program=progen.render(pt),
+                                 config=dict(threads=th, checkpoint_interval=2, gvt_period_us=gp, cmd=rest.cmd + "  with VERIF_KEEP_TICKING=1")), True)
+    c.cov["never_ending_model_probes"] = nprobe
     C.finish(c, ctx)
     c.cov.update(evaluations=len(runs), distinct_nontrivial=ok, runs_returned=ok, hang_signatures=hangs, by_variant=byvar,
                  rule="interpreter programs ended by predicate, termination time or RootsimStop from a handler x thread counts 1..16 (more threads than "
